@@ -676,7 +676,8 @@ func (w *cluWorld) finalChecks(finalID uint64) {
 			c.Violate(prop+"/final-foreign-key", "operator %s: %v", oc.OperatorId, err)
 			return
 		}
-		for subject, g := range p.groups {
+		for _, subject := range sortedKeysAny(p.groups) {
+			g := p.groups[subject]
 			if wantG := refKeyGroup([]byte(subject), w.kgs); g != wantG {
 				c.Violate(prop+"/stored-under-wrong-group", "operator %s persisted key %q under key group %d, MurmurHash3-32(key, 0) mod %d is %d", oc.OperatorId, subject, g, w.kgs, wantG)
 				return
@@ -864,8 +865,10 @@ func (w *cluWorld) checkAssignments() {
 					want[st.SplitID] = st.Cursor
 				}
 			}
-			for _, m := range w.src.roundAssign[r] {
-				for sp, cur := range m {
+			for _, sr := range sortedKeysAny(w.src.roundAssign[r]) {
+				m := w.src.roundAssign[r][sr]
+				for _, sp := range sortedKeysAny(m) {
+					cur := m[sp]
 					if cur != want[sp] {
 						c.Violate(prop+"/restored-position", "assignment round %d (restore of checkpoint %d): split %s resumes at %d, the checkpoint says %d", r, id, sp, cur, want[sp])
 						return
